@@ -387,16 +387,25 @@ Definition kspec (c : kcase) : bool :=
 
 (* ------------------------------------------------------------------ wire *)
 
-Definition get_event : dec event :=
+(** Wire tag 4 is a newAccount request whose response was lost: the CA created account [v], the
+    client saw an I/O error and goes on as after any failed registration. In the model's
+    vocabulary that is a registration whose save fails before its first Store — exactly the same
+    effect on every component of the state (account created, nothing stored, lock still held,
+    next operation: Unlock), accounted in [fsaves] — so the decoder expands it to those two
+    operations; the replay then demands that the implementation's next operation is the Unlock. *)
+Definition get_event : dec (list event) :=
   (tag <- get_nat ;;
    match tag with
-   | 0 => t <- get_nat ;; c <- get_nat ;; ret (EStart t c)
+   | 0 => t <- get_nat ;; c <- get_nat ;; ret [EStart t c]
    | 1 => t <- get_nat ;; f <- get_bool ;; k <- get_nat ;; kc <- get_nat ;; v <- get_nat ;;
-          ret (EOp t f k kc v)
-   | 2 => t <- get_nat ;; ret (ECrash t)
-   | 3 => c <- get_nat ;; ret (EReset c)
+          ret [EOp t f k kc v]
+   | 2 => t <- get_nat ;; ret [ECrash t]
+   | 3 => c <- get_nat ;; ret [EReset c]
+   | 4 => t <- get_nat ;; c <- get_nat ;; v <- get_nat ;;
+          ret [EOp t false k_newacct c v; EOp t true k_storereg c 0]
    | _ => fun _ => None
    end).
+Definition get_events : dec (list event) := (l <- get_list get_event ;; ret (concat l)).
 
 Definition get_final : dec final :=
   (cas <- get_list (x <- get_nat ;; y <- get_nat ;; z <- get_nat ;; ret (x, y, z)) ;;
@@ -424,15 +433,15 @@ Inductive case :=
 Definition get_case : dec case :=
   (kind <- get_nat ;;
    match kind with
-   | 0 => evs <- get_list get_event ;; f <- get_final ;; ret (CHist evs f)
+   | 0 => evs <- get_events ;; f <- get_final ;; ret (CHist evs f)
    | 1 => u <- get_url_case ;; o <- get_opt get_str ;; ret (CUrl u o)
    | 2 => u <- get_url_case ;; cs <- get_list (get_pair get_bool get_bool) ;; ret (CContact u cs)
    | 3 => we <- get_bool ;; km <- get_bool ;; ro <- get_bool ;; ck <- get_bool ;;
           ok <- get_bool ;; lk <- get_nat ;; sv <- get_bool ;; cr <- get_nat ;;
           ret (CKeyPem we km ro ck ok lk sv cr)
    | 4 => r0 <- get_nat ;; k0 <- get_nat ;; kn <- get_bool ;;
-          evs <- get_list get_event ;;
-          p <- get_nat ;; pe <- get_bool ;; pevs <- get_list get_event ;;
+          evs <- get_events ;;
+          p <- get_nat ;; pe <- get_bool ;; pevs <- get_events ;;
           res <- get_list (t <- get_nat ;; l <- get_nat ;; k <- get_nat ;; ret (t, (l, k))) ;;
           pr <- get_nat ;; pk <- get_nat ;;
           fr <- get_nat ;; fk <- get_nat ;; cr <- get_nat ;;
